@@ -6,6 +6,7 @@ from ..r_stereo import rule_tetrahedron_table, rule_alkene_table, rule_ladders, 
 from ..r_codebooks import rule_mark_parity
 from ..r_protocol import run_protocol
 from ..r_alias import rule_no_stale_alias, rule_fix_stereo_exit, rule_row_order
+from ..r_hygiene import rule_hygiene as _rule_hygiene
 
 LEVEL = 'other'
 
@@ -26,3 +27,4 @@ def run(ck, repo):
     # labels are kept only on centres that are stereogenic: every structural change reaches fix_stereo
     run_protocol(ck, repo, 'C12.D5-fix_stereo-reached', only_dims={'STEREO'})
     rule_distinctness_predicates(ck, repo, 'C12.D6-distinctness-predicates')
+    _rule_hygiene(ck, repo, 'C12.H-dataflow-hygiene', 'C12')
